@@ -340,3 +340,69 @@ def w3(prog, tier="quick"):
             break
     inst.append((key, {"module_lists": len(cfgs), "next_calls": n_eval}))
     return inst, findings
+
+
+# ---------------------------------------------------------------------------
+# W4: the per-symbol words report the stored fields
+
+def w4(prog):
+    """name, label (type), binding, visibility, address/value, size on an abstract symbol, interpreted from source (GELF_ST_* macros
+    expand to plain shifts and masks, so the typed evaluator decides them): each word yields the field stored in the GElf_Sym, type and
+    binding in the constant family selected by the machine of the symbol's own file."""
+    from cxxobj import CxxEvaluator, Obj, Struct, Sym, StdStr, OutOfBounds
+    from absint import Thrown
+    inst, findings = [], []
+
+    def one(q):
+        fs = [f for f in prog.funcs.values() if f["q"] == q and f.get("body") is not None]
+        if len(fs) != 1:
+            raise Broken("anchor %s vanished" % q)
+        return fs[0]
+    words = {"name": one("op_name_symbol::operate"), "label": one("op_label_symbol::operate"), "binding": one("op_binding_symbol::operate"),
+             "visibility": one("op_visibility_symbol::operate"), "address": one("op_address_symbol::operate"), "size": one("op_size_symbol::operate")}
+    hooks = {
+        "elfsym_stt_dom": lambda ev, o, a: ("stt", a[0]), "elfsym_stb_dom": lambda ev, o, a: ("stb", a[0]), "elfsym_stv_dom": lambda ev, o, a: ("stv", None),
+        "dw_address_dom": lambda ev, o, a: ("address", None),
+        "dwfl_context::get_machine": lambda ev, o, a: o.machine,
+    }
+    ev = CxxEvaluator(hooks, {"dec_constant_dom": ("dec", None)}, prog=prog)
+
+    def cst(v):
+        c = getattr(v, "m_cst", None) if not hasattr(v, "m_value") else v
+        val = getattr(c, "m_value", None)
+        return (getattr(val, "m_u", val), getattr(c, "m_dom", None))
+    seen = set()
+    n = 0
+    ops = {w: ev.new_object(f["cls"]) for w, f in words.items()}       # one operator object serves every file, as in a compiled query
+    for machine in (3, 183):
+        for typ, bind, vis_flags, value, size in ((2, 1, 0, 0x401000, 42), (10, 10, 0xe3, (1 << 64) - 8, 0), (0, 0, 0x60, 0, 1 << 40)):
+            sym = Struct("Elf64_Sym", {"st_name": 5, "st_info": (bind << 4) | typ, "st_other": vis_flags, "st_shndx": 1, "st_value": value, "st_size": size})
+            dwctx = Obj("dwfl_context")
+            dwctx.machine = machine
+            v = Obj("value_symbol")
+            v.m_dwctx, v.m_symbol, v.m_name, v.m_symidx, v.m_pos = dwctx, sym, StdStr(b"main"), 3, 7
+            v.m_doneness = ("enum", "cooked", 0)
+            exp = {"label": (typ, ("stt", machine)), "binding": (bind, ("stb", machine)), "visibility": (vis_flags & 3, ("stv", None)),
+                   "address": (value, ("address", None)), "size": (size, ("dec", None))}
+            for w, f in words.items():
+                n += 1
+                try:
+                    r = ev.call(f, ops[w], [v])
+                except (OutOfBounds, Thrown) as x:
+                    raise Broken("`%s` on a symbol cannot be evaluated: %s" % (w, x))
+                key = "W4:" + w
+                if w == "name":
+                    s_ = getattr(r, "m_str", None)
+                    ok = isinstance(s_, StdStr) and s_.b == b"main"
+                    got = s_.b if isinstance(s_, StdStr) else r
+                else:
+                    got = cst(r)
+                    ok = got == exp[w]
+                if not ok and key not in seen:
+                    seen.add(key)
+                    findings.append({"key": key, "where": "libzwerg/" + f["l"],
+                                     "msg": "`%s` of a symbol with st_info=%#x st_other=%#x st_value=%#x st_size=%d in a file of machine %d yields %s; stored is %s" % (
+                                         w, sym.st_info, sym.st_other, value, size, machine, got, exp.get(w, "main")), "detail": None})
+    for w in words:
+        inst.append(("W4:" + w, {"evaluations": n // len(words)}))
+    return inst, findings
